@@ -196,6 +196,45 @@ def run(chk):
                                         "as_host_dependency": {"namespace": as_dep, "log": logs[1], "final": fin[1]},
                                         "as_internal_source_module": {"namespace": as_int, "log": logs[2], "final": fin[2]}},
                            "what": "a module behaves differently depending on its role (entry program / supplied dependency / internal source module)"})
+    # ---- importer shapes: the first use of the module happens at run time, after the importer exported something ----
+    IMPORTERS = {
+        "re-export-named": 'export const before = 1; export function early() { return 2; } export { %(first)s as renamed } from "%(spec)s"; export const after = 3; JSON.stringify("done")',
+        "re-export-namespace": 'export const before = 1; export * as ns from "%(spec)s"; export const after = 3; JSON.stringify("done")',
+        "re-export-star": 'export const before = 1; export * from "%(spec)s"; export const after = 3; JSON.stringify("done")',
+        "dynamic-import": 'export const before = 1; export let seen = ""; const m = await import("%(spec)s"); seen = Object.keys(m).sort().join(); export const after = 3; JSON.stringify(seen)',
+        "dynamic-import-in-function": 'export const before = 1; async function load() { const m = await import("%(spec)s"); return Object.keys(m).sort().join(); } export const keys = await load(); export const after = 3; JSON.stringify(keys)',
+    }
+    FIRST = {"plain": "n", "computed": "total", "class-and-enum": "p", "closures": "seen"}
+    imp_reqs, imp_names = [], []
+    star_known = False
+    for name, src in ROLE_MODULES.items():
+        if name not in FIRST:
+            continue
+        for iname, tmpl in IMPORTERS.items():
+            imp_reqs.append({"program": tmpl % {"spec": "./mod", "first": FIRST[name]}, "path": "/roles/main.ts", "modules": {"/roles/mod": src}, "ways": ["step", "eval"]})
+            imp_reqs.append({"program": tmpl % {"spec": "app:mod", "first": FIRST[name]}, "path": "/roles/main.ts", "modules": {}, "internal": {"app:mod": src}, "ways": ["step", "eval"]})
+            imp_names.append((name, iname))
+    ires = run_entry(chk, imp_reqs, "i19")
+    stats["importer_shapes"] = len(imp_names)
+    for i, (name, iname) in enumerate(imp_names):
+        for way in ("step", "eval"):
+            dep_t, int_t = ires[2 * i].get(way, {}), ires[2 * i + 1].get(way, {})
+            view = lambda t: {"exports": t.get("exports"), "log": t.get("log"),
+                              "final": (t.get("final", {}).get("status"), t.get("final", {}).get("json"), (t.get("final", {}).get("text") or "").strip().split("\n")[0])}
+            if view(dep_t) != view(int_t) and iname == "re-export-star" and any(e["class"] == "R1-export-star-ignored" for e in chk.known):
+                star_known = True
+                continue
+            if view(dep_t) != view(int_t) and len(chk.violations) < 8:
+                chk.violation({"module": name, "importer": iname, "way": way, "source": ROLE_MODULES[name], "request": imp_reqs[2 * i + 1],
+                               "observed": {"module_supplied_by_host": view(dep_t), "module_registered_as_internal_source": view(int_t)},
+                               "what": "the importing program's exports / result depend on whether the module it first uses at run time is a "
+                                       "host-supplied dependency or an internal source module"})
+    for e in chk.known:
+        if e["class"] == "R1-export-star-ignored":
+            if star_known:
+                chk.known_finding(e)
+            else:
+                chk.stale_known.append("R1-export-star-ignored did not reproduce")
     chk.samples.append({"program": progs[3][1]["program"], "canonical_trace": canon(res[3]["step"]) if "step" in res[3] else None})
     chk.coverage.update({
         "evaluations": stats["runs"] + len(role_reqs), "distinct_nontrivial": len(progs) + len(ROLE_MODULES),
